@@ -6,9 +6,11 @@ MAIN = "c14"
 MODULES = ["geom", "pos", "stubs", "c14"]
 ACCESS = None
 DUMP = []
-PARALLEL = 3
-BOUND_QUICK = 1 << 32
-BOUND_THOROUGH = 1 << 40
+PARALLEL = 5
+import os
+BOUND_QUICK = 1 << 22      # seconds (~48 days)
+BOUND_THOROUGH = 1 << 22
+SLACK_SHIFT = 21
 
 META = {
     "functions_encoded": ["engine::search::time_control::TimeStrategy::new", "core::time::Duration::{from_millis, saturating_sub, mul_f32, "
@@ -33,12 +35,17 @@ MANIFEST = {
 
 def jobs(tier, seed):
     bound = BOUND_THOROUGH if tier == "thorough" else BOUND_QUICK
+    if os.environ.get("C14_BOUND_LOG2"):
+        bound = 1 << int(os.environ["C14_BOUND_LOG2"])
+    shift = int(os.environ.get("C14_SLACK_SHIFT", SLACK_SHIFT))
     t = 3000 if tier == "thorough" else 1500
     return [
         Job("c14_exact_and_infinite", "ExactTime(t) => soft = hard = t; Infinite => no limits", timeout=600, module="c14",
-            gen=f"pub const C14_BOUND_MS: u64 = {bound};\n"),
-        Job("c14_clocks_no_mtg", "clocks without moves-to-go: soft <= hard <= half(avail), no panic", timeout=t, mem_gb=20, module="c14", params={"bound_ms": bound}),
-        Job("c14_clocks_mtg", "clocks with moves-to-go >= 1: soft <= hard <= half(avail), no panic", timeout=t, mem_gb=20, module="c14", params={"bound_ms": bound}),
+            gen=f"pub const C14_BOUND_S: u64 = {bound};\npub const C14_SLACK_SHIFT: u32 = {shift};\n"),
+        Job("c14_lemma_half", "real Duration::mul_f32(0.5) <= d/2 + d*2^-21 + 1ns for whole-ms d <= bound; no panic", timeout=t, mem_gb=20, module="c14", params={"bound_s": bound}),
+        Job("c14_lemma_monotone", "real Duration::mul_f32: d*0.75 <= d*3.0, no panic for 0.033/0.75/3.0, all d <= 2*bound+1s (ns resolution)", timeout=t, mem_gb=20, module="c14", params={"bound_s": bound}),
+        Job("c14_clocks_no_mtg", "clocks without moves-to-go: soft <= hard <= half(avail), no panic", timeout=t, mem_gb=20, module="c14", params={"bound_s": bound}),
+        Job("c14_clocks_mtg", "clocks with moves-to-go >= 1: soft <= hard <= half(avail), no panic", timeout=t, mem_gb=20, module="c14", params={"bound_s": bound}),
     ]
 
 
